@@ -301,10 +301,12 @@ func (p *twkbParser) parseSize() error {
 	if err != nil {
 		return fmt.Errorf("size varint malformed: %w", err)
 	}
-	p.size = p.pos + int(bytesRemaining)
-	if p.size > len(p.twkb) {
+	// Compare before converting to int: a huge size would otherwise wrap
+	// around to a small or negative number and slip past the check.
+	if bytesRemaining > uint64(len(p.twkb)-p.pos) {
 		return fmt.Errorf("remaining input (%d bytes) smaller than size varint indicates (%d bytes)", len(p.twkb)-p.pos, bytesRemaining)
 	}
+	p.size = p.pos + int(bytesRemaining)
 	return nil
 }
 
